@@ -33,8 +33,11 @@ class Infra(Exception):
     """the check could not reach a verdict"""
 
 
+_T0 = time.time()
+
+
 def log(msg):
-    sys.stderr.write(msg + "\n")
+    sys.stderr.write("[%4ds] %s\n" % (time.time() - _T0, msg))
     sys.stderr.flush()
 
 
